@@ -1,0 +1,128 @@
+//go:build verif
+
+package s2
+
+// Exported wrappers of the unexported small data structures (sequenceLexicon,
+// idSetLexicon, the polyline-alignment window) and read-only accessors of
+// PaddedCell, used by the model-based verification harness in /verif
+// (spec/Lexicon.tla, spec/Windows.tla, spec/PaddedCells.tla).  This file is
+// only compiled with the "verif" build tag and adds no behaviour.
+
+import "github.com/golang/geo/r2"
+
+// VerifSeqLexicon wraps a sequenceLexicon.
+type VerifSeqLexicon struct{ l *sequenceLexicon }
+
+// VerifNewSeqLexicon calls newSequenceLexicon.
+func VerifNewSeqLexicon() *VerifSeqLexicon { return &VerifSeqLexicon{newSequenceLexicon()} }
+
+// Add calls sequenceLexicon.add.
+func (v *VerifSeqLexicon) Add(ids []int32) int32 { return v.l.add(ids) }
+
+// Sequence calls sequenceLexicon.sequence.
+func (v *VerifSeqLexicon) Sequence(id int32) []int32 { return v.l.sequence(id) }
+
+// Size calls sequenceLexicon.size.
+func (v *VerifSeqLexicon) Size() int { return v.l.size() }
+
+// Clear calls sequenceLexicon.clear.
+func (v *VerifSeqLexicon) Clear() { v.l.clear() }
+
+// Raw returns copies of the flat value array and of the begin offsets.
+func (v *VerifSeqLexicon) Raw() (values []int32, begins []uint32) {
+	return append([]int32{}, v.l.values...), append([]uint32{}, v.l.begins...)
+}
+
+// VerifIDSetLexicon wraps an idSetLexicon.
+type VerifIDSetLexicon struct{ l *idSetLexicon }
+
+// VerifNewIDSetLexicon calls newIDSetLexicon.
+func VerifNewIDSetLexicon() *VerifIDSetLexicon { return &VerifIDSetLexicon{newIDSetLexicon()} }
+
+// Add calls idSetLexicon.add.
+func (v *VerifIDSetLexicon) Add(ids ...int32) int32 { return v.l.add(ids...) }
+
+// IDSet calls idSetLexicon.idSet.
+func (v *VerifIDSetLexicon) IDSet(id int32) []int32 { return v.l.idSet(id) }
+
+// Clear calls idSetLexicon.clear.
+func (v *VerifIDSetLexicon) Clear() { v.l.clear() }
+
+// Inner returns the sequence lexicon that stores the sets with two or more elements.
+func (v *VerifIDSetLexicon) Inner() *VerifSeqLexicon { return &VerifSeqLexicon{v.l.idSets} }
+
+// VerifEmptySetID returns emptySetID.
+func VerifEmptySetID() int32 { return emptySetID }
+
+// VerifWindow wraps a polyline-alignment window.
+type VerifWindow struct{ w *window }
+
+func verifStrides(s [][2]int) []columnStride {
+	out := make([]columnStride, len(s))
+	for i, x := range s {
+		out[i] = columnStride{start: x[0], end: x[1]}
+	}
+	return out
+}
+
+// VerifWindowFromStrides calls windowFromStrides (strides must not be empty).
+func VerifWindowFromStrides(s [][2]int) *VerifWindow {
+	return &VerifWindow{windowFromStrides(verifStrides(s))}
+}
+
+// VerifWindowRaw builds a window value with explicit dimensions (for isValid).
+func VerifWindowRaw(rows, cols int, s [][2]int) *VerifWindow {
+	return &VerifWindow{&window{rows: rows, cols: cols, strides: verifStrides(s)}}
+}
+
+// IsValid calls window.isValid.
+func (v *VerifWindow) IsValid() bool { return v.w.isValid() }
+
+// Rows returns window.rows.
+func (v *VerifWindow) Rows() int { return v.w.rows }
+
+// Cols returns window.cols.
+func (v *VerifWindow) Cols() int { return v.w.cols }
+
+// Strides returns a copy of the strides as {start, end} pairs.
+func (v *VerifWindow) Strides() [][2]int {
+	out := make([][2]int, len(v.w.strides))
+	for i, s := range v.w.strides {
+		out[i] = [2]int{s.start, s.end}
+	}
+	return out
+}
+
+// ColumnStride calls window.columnStride.
+func (v *VerifWindow) ColumnStride(row int) [2]int {
+	s := v.w.columnStride(row)
+	return [2]int{s.start, s.end}
+}
+
+// CheckedColumnStrideInRange calls window.checkedColumnStride(row).InRange(col).
+func (v *VerifWindow) CheckedColumnStrideInRange(row, col int) bool {
+	return v.w.checkedColumnStride(row).InRange(col)
+}
+
+// Upsample calls window.upsample.
+func (v *VerifWindow) Upsample(newRows, newCols int) *VerifWindow {
+	return &VerifWindow{v.w.upsample(newRows, newCols)}
+}
+
+// Dilate calls window.dilate.
+func (v *VerifWindow) Dilate(radius int) *VerifWindow { return &VerifWindow{v.w.dilate(radius)} }
+
+// DebugString calls window.debugString.
+func (v *VerifWindow) DebugString() string { return v.w.debugString() }
+
+// VerifPaddedCellState is the private state of a PaddedCell.
+type VerifPaddedCellState struct {
+	ILo, JLo, Orientation, Level int
+	Bound, Middle                r2.Rect // Middle as currently cached (empty = not yet computed)
+}
+
+// VerifPaddedCellStateOf returns the private fields of p without computing anything.
+func VerifPaddedCellStateOf(p *PaddedCell) VerifPaddedCellState {
+	return VerifPaddedCellState{ILo: p.iLo, JLo: p.jLo, Orientation: p.orientation, Level: p.level,
+		Bound: p.bound, Middle: p.middle}
+}
